@@ -25,7 +25,7 @@
 //	     L4 L4, PayloadLenDelta}
 //	Info{Peer, ConsDir, SegID, Timestamp, Rsv}; Hop{ConsIngress, ConsEgress, ExpTime,
 //	     IngressAlert, EgressAlert, Mac, Rsv}
-//	Host{Type (slayers 4-bit type/len code), Raw}; HostIP4/HostIP6/HostSVC/HostRaw helpers
+//	Host{Type (slayers 4-bit type/len code), Raw}; HostIP4/HostIP/HostSVC/HostRaw helpers
 //	L4{Proto, Bytes} with UDP/TCP/SCMPEcho/SCMPTraceroute/RawL4 constructors;
 //	     (L4).DstPort() = what dataPlane.dstScionPort must return (ok=false: error)
 //	(*Desc).Serialize() ([]byte, error)      real slayers serializer (+ patches for reserved
@@ -33,7 +33,7 @@
 //	Parse(raw) (*Rec, error)                 independent minimal parser of the SCION header
 //	                                         (fixed offsets only; no slayers) -> the record
 //	                                         handed to the Coq model
-//	(*Rec).Gallina(l4port) string            Router.mkPkt term
+//	(*Rec).Gallina(port, ok) string           Router.mkPkt term
 //
 // Beta chains (chain.go): segments in construction order with per-AS keys
 //
@@ -45,24 +45,40 @@
 //
 // Single-router generator (gen.go)
 //
-//	GenConfig(r, opts) *Config               random consistent link-type configuration
-//	GenValid(r, cfg, now) *Scenario          valid-by-construction packet at a random position
-//	                                         kind (first hop from inside, transit, cross-over,
-//	                                         peering, last hop inbound; both directions; every
-//	                                         ingress kind), Scenario{Desc, Ingress, Kind, ...}
-//	Mutate(r, sc, cfg) (what string)         one mutation of SegID, timestamp, ExpTime,
-//	                                         ConsIngress/ConsEgress, MAC bytes, CurrINF/CurrHF,
-//	                                         SrcIA/DstIA, hosts, ingress link, expiry vs now,
-//	                                         reserved bits, payload length, alerts, BFD state
+//	GenConfig(r) *Config                     random consistent link-type configuration (own external
+//	                                         interfaces of every link type, two sibling routers,
+//	                                         some links down, service backends)
+//	GenValid(r, cfg, nowSec, kind) *Scenario valid-by-construction packet; kind in Kinds ("first-hop",
+//	                                         "transit", "xover" (as ingress or as egress router),
+//	                                         "peer-out", "peer-in", "inbound") or AttackKinds
+//	                                         ("spoof-sameseg", "spoof-afterxover": transit spoofing
+//	                                         from inside the AS, must NOT be accepted); "" = random.
+//	                                         Scenario{Desc, Ing, Kind, Local []LocalHop, Mut, Cell}
+//	(*Scenario).Remac(cfg)                   recompute MAC + wire SegID of the local hop fields
+//	Mutate(r, sc, cfg, nowSec, what) string  one mutation (Mutations lists the names): SegID,
+//	                                         timestamp, ExpTime, ConsIngress/ConsEgress, MAC bytes of the
+//	                                         current / next hop, foreign key, expired / barely valid hop
+//	                                         with a correct MAC, CurrINF/CurrHF, SrcIA/DstIA, hosts,
+//	                                         ingress link, payload length, reserved bits, alert flags,
+//	                                         peer / cons-dir flag, truncated L4
 //	All expiry times are kept >= MarginSec seconds away from `now` on either side because
 //	the router reads time.Now() itself.
 //
-// Execution (exec.go)
+// Exhaustive link-type table (table.go): TableConfig, TableCase, Table(x, stream), TableCell.
 //
-//	(*Router).Run(raw, ingress) Obs          VerifProcess on the real dataplane + time.Now()
-//	                                         bracket, byte diff, parsed output record
-//	CaseTerm(cfgName, cfg, sc/desc, obs)     Gallina `Router.CPkt ...` incl. the MAC table
-//	                                         (every MAC the model may query, real key)
-//	ConstCases()                             `Router.CConst k v` for the Go constants
-//	Main(prop, checkFn, streams)             the runner pattern shared by cmd/c01,c05,c06,c07
+// Execution (exec.go, runner.go)
+//
+//	(*Router).Run(raw, ingress) (Obs, error) VerifProcess on the real dataplane; Obs{NowNs, Res, In,
+//	                                         Out (parsed records), Changed (byte diff), InLen, OutLen}
+//	(*Obs).Class()                           coarse outcome label ("forward-external", "scmp-4-51", ...)
+//	CaseTerm(cfgName, cfg, ing, l4, obs)     Gallina `let p := <pkt> in Router.CPkt ...` incl. the MAC
+//	                                         table (every MAC the model may query, real key)
+//	Consts()                                 Go constants in the order of Router.const_value
+//	Main(prop, checkFn, rule, body)          the runner pattern shared by cmd/c01,c05,c06,c07:
+//	                                         Ctx{Run, Rng, Now, Tagger, NonTrivial, After},
+//	                                         x.AddConfig(cfg) (name, *Router), x.Emit(stream, name, rt, sc),
+//	                                         x.RandomStreams(nCfg, nValid, nMut, kinds, muts), x.ConstCases()
+//
+// A later builder adds a property by writing cmd/cNN/main.go that calls Main with its own
+// check function (Router.check_with <oracle>) and streams, and extends Model/Router.v.
 package rtgen
